@@ -1,7 +1,7 @@
 (* C07: Honest participants follow protocol discipline in everything they emit.
    Model: Gpbft/Instance.v (Layer N), tied to gpbft.Participant by the event-trace correspondence (harness c07.go). *)
 From Coq Require Import ZArith List Bool.
-From F3 Require Import GoInt QuorumGen Instance InstanceRun InstanceOrder InstanceVotes.
+From F3 Require Import GoInt QuorumGen Instance InstanceRun InstanceOrder InstanceVotes InstanceConverge.
 Import ListNotations.
 Open Scope Z_scope.
 
@@ -79,6 +79,15 @@ Theorem C07_commit_justified : forall c i v0 v,
   (i_out i' = OAlarm (i_now i + nthZ (c_timeouts c) (i_round i)) :: i_out i /\ i_err i' <> None).
 Proof. exact begin_commit_justified. Qed.
 Print Assumptions C07_commit_justified.
+
+(* tryConverge never fails with "no values at CONVERGE", over EVERY sequence of deliveries and timers after the start: the
+   participant's own CONVERGE value is always acceptable to itself (run-level invariant PInv; this is the invariant the
+   repaired skipToRound-from-QUALITY defect violated) *)
+Theorem C07_converge_never_fails : forall c input now evs,
+  input <> [] -> Forall wfe evs ->
+  i_err (snd (run_hist c (started c input now) evs)) <> Some ENoConvergeValue.
+Proof. exact converge_never_fails. Qed.
+Print Assumptions C07_converge_never_fails.
 
 (* non-vacuity: a concrete run (3 members, subject 0 with input [1;2;3]) passes QUALITY, PREPARE, COMMIT and decides *)
 Definition ex_cfg := mkCfg [10; 30; 30] 70 4 2 2000 [2000; 3000; 4500] [700; 900; 1100].
